@@ -4,6 +4,7 @@ after confirming that it applies to /repo's tree and leaves the pinned suite unc
 import json, os, shutil, subprocess, sys, tempfile, re
 
 wt, prop = sys.argv[1:3]
+tag = sys.argv[3] if len(sys.argv) > 3 else ""
 for i in range(1, 9):
     diff = os.path.join(wt, f"legit-{i}.diff")
     if not os.path.exists(diff) or not open(diff).read().strip():
@@ -12,18 +13,20 @@ for i in range(1, 9):
     try:
         repo = os.path.join(scratch, "repo")
         shutil.copytree("/repo", repo, ignore=shutil.ignore_patterns(".git", "__pycache__", "*.pyc", "docs", "*.egg-info"))
-        p = subprocess.run(["patch", "-p1", "-s", "-d", repo, "-i", diff], stdout=subprocess.PIPE, stderr=subprocess.STDOUT)
+        p = subprocess.run(["git", "apply", "--unsafe-paths", "--directory", repo, diff], cwd="/", stdout=subprocess.PIPE, stderr=subprocess.STDOUT)
+        if p.returncode != 0:
+            p = subprocess.run(["patch", "-p1", "-s", "-d", repo, "-i", diff], stdout=subprocess.PIPE, stderr=subprocess.STDOUT)
         if p.returncode != 0:
             print(f"legit-{i}: does not apply: {p.stdout.decode()[:200]}")
             continue
         t = subprocess.run("/venv/bin/python -m pytest -q -p no:cacheprovider -n 8 2>&1 | tail -1", shell=True, cwd=repo, stdout=subprocess.PIPE).stdout.decode()
         counts = ", ".join(f"{n} {k}" for n, k in re.findall(r"(\d+) (failed|passed|error|errors)", t))
-        dst = f"/verif/legit/{prop}-{i}"
+        dst = f"/verif/legit/{prop}-{tag}{i}"
         os.makedirs(dst, exist_ok=True)
         shutil.copy(diff, os.path.join(dst, "patch.diff"))
         md = os.path.join(wt, f"legit-{i}.md")
         desc = open(md).read() if os.path.exists(md) else ""
-        json.dump({"id": f"{prop}-{i}", "properties": [prop], "origin": "independent sub-agent asked for a property-preserving change", "description": desc, "tests": counts}, open(os.path.join(dst, "meta.json"), "w"), indent=1)
+        json.dump({"id": f"{prop}-{tag}{i}", "properties": [prop], "origin": "independent sub-agent asked for a property-preserving change", "description": desc, "tests": counts}, open(os.path.join(dst, "meta.json"), "w"), indent=1)
         print(f"legit-{i}: filed as {dst} tests: {counts}")
     finally:
         shutil.rmtree(scratch, ignore_errors=True)
